@@ -31,6 +31,11 @@ func StaticReach(fn *ssa.Function, depth int) map[*ssa.Function]bool {
 			return
 		}
 		seen[f] = true
+		if impl := thinWrapperCallee(f); impl != nil && implAlias[impl] == f {
+			// a thin wrapper is transparent: stepping through it costs no depth
+			visit(impl, d)
+			return
+		}
 		for _, b := range f.Blocks {
 			for _, in := range b.Instrs {
 				switch x := in.(type) {
